@@ -84,6 +84,16 @@ def rule_tok1(ctx: Ctx) -> RuleResult:
           "path interpreter", VIOLATED if miss or not wtokens else DISCHARGED,
           f"interpreter has no branch for {miss} (ValueError 'Unknown token' in post-init)" if miss else
           f"reader branches: {sorted(rb)}", w.node.lineno)
+    # the leaf token converts through the pseudo-type's own parser (the one detection used)
+    leaf = rb.get("S")
+    if leaf is not None:
+        rr.instances += 1
+        conv = [c for s_ in leaf.body for c in ast.walk(s_) if isinstance(c, ast.Call) and norm(c.func).startswith("current_type")]
+        ok = bool(conv) and all(norm(c.func) == "current_type.to_internal_value" and c.args and norm(c.args[0]) == r.params[1] for c in conv)
+        rr.ob(SC, r.qualname, norm(conv[0])[:60] if conv else "leaf conversion", "a string is converted by "
+              "<type>.to_internal_value(value), the parser that classified it", DISCHARGED if ok else VIOLATED,
+              "parser protocol used" if ok else "converted by another call (the class constructor accepts a different language: "
+              "BooleanString('true') / IsoDateString('2020-01-02') fail)", leaf.lineno)
     # separators
     seps_w = {}
     for n in walk_no_nested(sfp.node):
